@@ -20,17 +20,17 @@ fn count_nl(b: &[u8], upto: usize) -> usize {
 /// ParsedContext for an entry spanning [s, e) of an arbitrary text (any bytes: CR, LF, high bytes):
 /// compute_line_start is the line of the entry's first byte in the original file, as_str is exactly the
 /// entry's bytes, span() resolves a tracked sub-span to offsets relative to the entry.
-vk_proof! { unwind 10; fn c14_parsed_context_8() {
+fn check_parsed_context<const N: usize>() {
     let len = vk::u8() as usize;
     let s = vk::u8() as usize;
     let e = vk::u8() as usize;
     let cs = vk::u8() as usize;
     let ce = vk::u8() as usize;
-    let raw: [u8; 8] = vk::bytes::<8>();
-    vk::assume(len <= 8 && s <= e && e <= len);
+    let raw: [u8; N] = vk::bytes::<N>();
+    vk::assume(len <= N && s <= e && e <= len);
     vk::assume(s <= cs && cs <= ce && ce <= e); // a tracked item lies inside its entry
     let mut i = 0;
-    while i < 8 {
+    while i < N {
         vk::assume(raw[i] < 128); // as_str() slices at s and e; ASCII keeps every index a boundary
         i += 1;
     }
@@ -45,12 +45,18 @@ vk_proof! { unwind 10; fn c14_parsed_context_8() {
     assert!(r.end <= t.len(), "C14: resolved span leaves the entry text");
     vk_cover!(s > 0 && raw[s - 1] == b'\r', "entry preceded by a carriage return");
     vk_cover!(count_nl(&raw, s) == 2, "entry on the third line");
-} }
+}
+
+vk_proof! { unwind 10; fn c14_parsed_context_8() { check_parsed_context::<8>(); } }
+
+/// The same on texts of at most 4 bytes ("a\r\nb" is inside): a second, much smaller query, so that a change
+/// which makes the line computation expensive for the solver (e.g. `str::lines()`) is still decided.
+vk_proof! { unwind 6; fn c14_parsed_context_4() { check_parsed_context::<4>(); } }
 
 #[cfg(all(test, not(kani)))]
 #[test]
 fn verif_replay_entry() {
-    crate::vk::replay_dispatch(&[("c14_parsed_context_8", c14_parsed_context_8 as fn())]);
+    crate::vk::replay_dispatch(&[("c14_parsed_context_8", c14_parsed_context_8 as fn()), ("c14_parsed_context_4", c14_parsed_context_4 as fn())]);
 }
 
 /// Lets harnesses of other modules build a ParsedContext (fields are pub(super)).
